@@ -39,6 +39,7 @@ def label(s):
     if s.startswith('C02|') and ':h-tag=id-rotated-since|' in s and ('|lost|' in s or '|ends-created|' in s): return 'D14'
     if s.startswith('C03|reactivated-after-eviction:pending|via=process_welcome(foreign-invitation)->Welcome'): return 'D11'
     if s.startswith('C03|reactivated-after-eviction:active|via=accept_welcome(own-invitation)->Ok'): return 'D16'
+    if s.startswith('C04|message-of-another-author-altered|replay=commit|same-h,smaller-id|'): return 'D18'
     if s.startswith('C05|admin-operation-carried-out-foreign-proposal|'): return 'D5'
     if s.startswith('C16|active-group-disturbed-by-process|invitation=forged'): return 'D6'
     if s.startswith('C16|active-group-disturbed-by-process|'): return 'D11'
